@@ -221,6 +221,16 @@ def m_getattr(E, a, kw):
     return E.getattr_value(v, nm)
 
 
+@model('setattr')
+def m_setattr(E, a, kw):
+    obj, name, val = a[0], a[1], a[2]
+    nm = conc_str(name)
+    if nm is None:
+        raise Unsupported('setattr with a symbolic name')
+    E.setattr_value(obj, nm, val)
+    return NONE
+
+
 @model('tuple')
 def m_tuple(E, a, kw):
     if not a:
@@ -1180,14 +1190,14 @@ def m_id(E, a, kw):
     raise Unsupported('id() of an immutable value')
 
 
-@method('str', 'join')
+@method(('str', 'bytes'), 'join')
 def m_join(E, a, kw):
     sep, it = a[0], a[1]
     items = E.iter_items(it)
-    out = seq_lit('str', '')
+    out = seq_lit(sep.kind, '' if sep.kind == 'str' else b'')
     for k, x in enumerate(items):
-        if not (isinstance(x, VSeq) and x.kind == 'str'):
-            _raise(E, TypeError, 'sequence item: expected str instance')
+        if not (isinstance(x, VSeq) and x.kind == sep.kind):
+            _raise(E, TypeError, 'sequence item: expected %s instance' % sep.kind)
         if k:
             out = seq_concat(out, sep)
         out = seq_concat(out, x)
@@ -1296,6 +1306,30 @@ def m_dict_pop(E, a, kw):
     if len(a) > 2:
         return a[2]
     _raise(E, KeyError, 'key')
+
+
+@method('dict', 'setdefault')
+def m_dict_setdefault(E, a, kw):
+    ref, key = a[0], a[1]
+    default = a[2] if len(a) > 2 else NONE
+    d = E.getf(ref, 'val')
+    if not isinstance(d, dict):
+        raise Unsupported('setdefault on symbolic dict')
+    k = E.dict_key(key)
+    if k in d:
+        return d[k]
+    d2 = dict(d)
+    d2[k] = default
+    E.setf(ref, 'val', d2)
+    return default
+
+
+@method('dict', 'copy')
+def m_dict_copy(E, a, kw):
+    d = E.getf(a[0], 'val')
+    if not isinstance(d, dict):
+        raise Unsupported('copy of symbolic dict')
+    return E.new_dict(dict(d))
 
 
 # ---- struct / binascii ---------------------------------------------------------------------------
